@@ -332,9 +332,21 @@ func (w *WAL) mutateStateLocked(tx stateTxn) error {
 		}
 	}
 
-	w.s.Store(&newS)
+	// The old state keeps a reference to its successor until it has been
+	// finalized itself. A state's finalizer closes and deletes the files that
+	// were dropped when it was replaced, but readers of any OLDER state may
+	// still be using those files too; chaining the references means no finalizer
+	// runs before all readers of earlier states are done.
+	succ := &newS
+	succ.acquire()
+	w.s.Store(succ)
 	verifPoint("mutateState.published")
-	s.finalizer.Store(fn)
+	s.finalizer.Store(func() {
+		if fn != nil {
+			fn()
+		}
+		succ.release()
+	})
 	return nil
 }
 
@@ -1063,7 +1075,11 @@ func (w *WAL) Close() error {
 	s.acquire()
 	defer s.release()
 
-	w.s.Store(&state{})
+	// As in mutateStateLocked the empty state is referenced by its predecessor
+	// so that it (trivially) outlives it.
+	empty := &state{}
+	empty.acquire()
+	w.s.Store(empty)
 	verifPoint("Close.stateSwapped")
 
 	// Old state might be still in use by readers, attach closers to all open
@@ -1082,6 +1098,7 @@ func (w *WAL) Close() error {
 	// that same lock.
 	s.finalizer.Store(func() {
 		w.closeSegments(toClose)
+		empty.release()
 	})
 
 	return w.metaDB.Close()
